@@ -155,6 +155,21 @@ theorem symXP_lawful (sha1 : Bytes → Bytes) (isPrime : Nat → Bool) (factor :
   decS_encS := by intro k d pad; simp [symXP]
   decC_encC := by intro k d pad; simp [symXP]
 
+/-- Non-vacuity of `exchange_completes` / `exchange_agree` / `client_success_implies`: a concrete
+honest exchange exists in the model — symbolic primitives, p = 2^2047 (declared prime by the
+oracle), a = 1300, b = 1301, pq = 21 = 3·7 — and both sides end with the key 3^(1300·1301) mod p. -/
+example :
+    let P := symXP (fun x => x) (fun n => n != 21) (fun n => if n = 21 then some (3, 7) else none)
+    let cc : CCfg := ⟨[5], 2, false, 0⟩
+    let ct : CTape := ⟨List.replicate 16 1, List.replicate 32 2, 0, 1301, 0, 9⟩
+    let sc : SCfg := ⟨5, 2⟩
+    let st : STape := ⟨List.replicate 16 3, 21, 2 ^ 2047, 1300, 0, 0⟩
+    (honestRun P cc ct sc st).1 = .done ⟨3 ^ (1300 * 1301) % 2 ^ 2047, serverSalt ct.newNonce st.serverNonce, 9⟩ ∧
+    (honestRun P cc ct sc st).2.1 = .done ⟨3 ^ (1300 * 1301) % 2 ^ 2047, serverSalt ct.newNonce st.serverNonce⟩ := by
+  intro P cc ct sc st
+  exact exchange_completes P (symXP_lawful _ _ _) cc ct sc st 3 7 (by decide) (by decide +kernel) (by decide) (by decide)
+    (by decide) rfl (by decide +kernel) (by decide +kernel)
+
 /-- The server half of the model is a transliteration of *this* program: `ServerExchange.Run`
 regenerated as a statement list (order of receives, guards and sends incl. the `SendResPQ` loop for a
 repeated req_pq, both DC comparisons, the error of every exit), the literals it sends or encrypts
